@@ -957,7 +957,9 @@ def scen_stream(S, rng, fam, kind, M, nblocks, p):
         if fam == "f":
             fs = S.fstate(sid); dr = S.dict_region(sid)
             if rng.random() < p.get("pforce", 0.03) and fs["dctx"] == -1 and (fs["ds"] == 0 or fs["ds"] >= 4) and fs["cur"] < 0x70000000 \
-               and (dr is None or a + n <= dr[0] or a >= dr[1]) and n > 0:
+               and (dr is None or a + n <= dr[0] or a >= dr[1]) and n > 0 and fs["dict"] != a:
+                # (dictionary == source with dictSize 0 makes the C test `lowLimit == dictionary` true for in-block matches of this
+                #  hidden test entry point: matches are cut to 4 bytes; the kernel model abstracts that pointer comparison)
                 r, out = S.f_continue(sid, a, n, 0, 1, force_ext=True)
             else:
                 r, out = S.f_continue(sid, a, n, cap, acc, expect_ok=cap >= bound(n))
